@@ -90,7 +90,8 @@ PROPS = {
             [J("deferred.throw", "wl_deferred", 80000, 2000000, mode="throw"),
              J("cow.throw", "wl_cow", 80000, 2000000, mode="throw"),
              J("soh.throw", "wl_soh", 80000, 2000000, mode="throw"),
-             J("dd.throw", "wl_dd", 80000, 2000000, mode="throw")]},
+             J("dd.throw", "wl_dd", 80000, 2000000, mode="throw"),
+             J("dd.single.throw", "wl_dd", 30000, 800000, mode="throw", single=1)]},
 }
 
 
